@@ -287,10 +287,13 @@ type valueOutput struct {
 }
 
 func (vo valueOutput) Put(v any) error {
+	verifTraceC18("put-begin", vo.data, v)
 	select {
 	case vo.data <- v:
+		verifTraceC18("put-sent", vo.data)
 		return nil
 	case <-vo.sendStop:
+		verifTraceC18("put-stopped", vo.data, *vo.sendError)
 		return *vo.sendError
 	}
 }
@@ -311,12 +314,16 @@ type byteOutput struct {
 }
 
 func (bo byteOutput) Write(p []byte) (int, error) {
+	verifTraceC18("write-begin", bo.f, p)
 	n, err := bo.f.Write(p)
+	verifTraceC18("write-end", bo.f, n, convertReaderGone(err))
 	return n, convertReaderGone(err)
 }
 
 func (bo byteOutput) WriteString(s string) (int, error) {
+	verifTraceC18("write-begin", bo.f, s)
 	n, err := bo.f.WriteString(s)
+	verifTraceC18("write-end", bo.f, n, convertReaderGone(err))
 	return n, convertReaderGone(err)
 }
 
